@@ -52,7 +52,7 @@ let cdef_ s : M.cdef =
 
 let () =
   (* (mapping tstruct opt with-enum with-unit chan-tstruct (field-key param-key channel-key second-enum-literal) ((TName ((key opt tstruct) ..)) ..) (plain ziface zvisit zfield zparam) plain-module zod-module)
-     -> (in-domain model-strings string-oracle project-result allowed-tags) *)
+     -> (in-domain model-strings string-oracle project-result allowed-tags schema-texts) *)
   Registry.register "tcase" (fun s ->
     match list s with
     | [m; t; o; we; wu; ct; keys; extra; strs; pm; zm] ->
@@ -71,7 +71,7 @@ let () =
         (match List.map str_ (list strs) with
          | [a; b; _; d; e] ->
              List [of_bool (M.c10_in_dom m t); of_sx (M.c10_strings m t); of_sx (M.c10_string_oracle a b d e);
-                   of_sx (M.c10_project p (str_ pm) (str_ zm)); of_sx (M.c10_allowed t)]
+                   of_sx (M.c10_project p (str_ pm) (str_ zm)); of_sx (M.c10_allowed t); of_sx (M.c10_schema_texts p)]
          | _ -> failwith "c10-tcase: five strings expected")
     | _ -> failwith "c10-tcase: bad case");
   (* oracle only: (plain-text zod-text) -> verdict *)
